@@ -55,6 +55,8 @@ def script_of(steps):
     unread = []
     for k, st in enumerate(steps):
         lines.append("ini\t" + st["ini"])
+        if k >= 1:
+            lines.append("errno\t2")        # the previous exec failed with ENOENT and nobody cleared errno since (a fresh process starts with 0)
         lines.append(step_call_line(st))
         if st.get("unreadable"):
             unread.append(k)
@@ -87,15 +89,24 @@ def observations(r):
     return out
 
 
+def lib_of(libs, variant):
+    """variant: ts | nts | ts-prod | nts-prod (…-prod: compiled-in configuration path, production branch of the ctor)"""
+    return libs[variant.split("-")[0]]
+
+
+def is_prod(variant):
+    return variant.endswith("-prod")
+
+
 def run_history(run, libs, variant, steps, tag):
     script, fault = script_of(steps)
-    r = run_life(run, libs[variant], script, tag, fault=fault, timeout=180)
+    r = run_life(run, lib_of(libs, variant), script, tag, fault=fault, timeout=180, prod=is_prod(variant))
     return r, script, fault
 
 
 def fresh_ref(run, libs, variant, st, tag):
     script, fault = script_of([st])
-    r = run_life(run, libs[variant], script, tag, fault=fault, timeout=60)
+    r = run_life(run, lib_of(libs, variant), script, tag, fault=fault, timeout=60, prod=is_prod(variant))
     ob = observations(r)
     return (ob.get(0), r["status"])
 
@@ -163,8 +174,8 @@ def check_history(run, libs, refs, variant, steps, tag, periodic=0):
                       % (r["status"], len(steps), variant, r["stderr"][-300:]), dict(base, failing_input={"variant": variant, "history": [s["label"] for s in steps]})))
         return finds, 0
     for (kind, site) in errs:
-        finds.append(("hist:%s:%s" % (kind, variant), "spec_violation", "%s at %s during a history of %d calls (%s build)" % (kind, addr2line(libs[variant], site), len(steps), variant),
-                      dict(base, failing_input={"variant": variant, "history": [s["label"] for s in steps], "site": addr2line(libs[variant], site)})))
+        finds.append(("hist:%s:%s" % (kind, variant), "spec_violation", "%s at %s during a history of %d calls (%s build)" % (kind, addr2line(lib_of(libs, variant), site), len(steps), variant),
+                      dict(base, failing_input={"variant": variant, "history": [s["label"] for s in steps], "site": addr2line(lib_of(libs, variant), site)})))
     obs = observations(r)
     refs.fill([(variant, st) for st in steps])
     ncmp = 0
@@ -186,8 +197,8 @@ def check_history(run, libs, refs, variant, steps, tag, periodic=0):
                 site, (cnt, byt) = sorted(e["lib"].items(), key=lambda kv: -kv[1][0])[0]
                 finds.append(("hist:growth:%s" % variant, "spec_violation",
                               "%d block(s) (%d bytes) allocated at %s are still live %s of call %d (%s build, history of %d calls)"
-                              % (cnt, byt, addr2line(libs[variant], site), "at exec entry" if ph == "at-exec" else "after return", k, variant, len(steps)),
-                              dict(base, call_index=k, failing_input={"variant": variant, "call_index": k, "site": addr2line(libs[variant], site),
+                              % (cnt, byt, addr2line(lib_of(libs, variant), site), "at exec entry" if ph == "at-exec" else "after return", k, variant, len(steps)),
+                              dict(base, call_index=k, failing_input={"variant": variant, "call_index": k, "site": addr2line(lib_of(libs, variant), site),
                                                                       "history_configs": [unhex(s["ini"]).decode("latin-1") if s["ini"] != "~" else None for s in steps[:k + 1]]})))
                 break
         else:
@@ -218,7 +229,7 @@ def corpus_histories():
     out = []
     for p in sorted(glob.glob(os.path.join(VERIF, "corpus", "C11", "*.json"))):
         d = json.load(open(p))
-        out.append((os.path.basename(p), d.get("variants", ["ts", "nts"]), [denorm_step(s) for s in d["steps"]]))
+        out.append((os.path.basename(p), d.get("variants", ["ts", "nts", "ts-prod", "nts-prod"]), [denorm_step(s) for s in d["steps"]]))
     return out
 
 
@@ -243,6 +254,8 @@ def check(run):
         steps = mk_history(rng, n)
         for v in ("ts", "nts"):
             jobs.append((v, steps, "gen-%d" % i, 0))
+        if i % 3 == 0:        # the same history through the production branch of the ctor (compiled-in path instead of the test library's hook)
+            jobs.append((("ts-prod", "nts-prod")[(i // 3) % 2], steps, "gen-%d" % i, 0))
     # long periodic histories: 30 calls cycling through 3 configurations (growth over long sequences)
     for i in range(3 if run.tier == "quick" else 40):
         steps = mk_history(rng, 30, periodic=3)
@@ -297,7 +310,8 @@ def check(run):
         run.notes.append("proof obligation broken as well: %s" % failed)
     run.coverage.update({
         "evaluations": ncmp, "distinct_nontrivial": len(labels),
-        "rule": "histories of 2..30 calls in one process, thread-safe and non-thread-safe production builds; between calls the configuration file is rewritten with generated "
+        "rule": "histories of 2..30 calls in one process, thread-safe and non-thread-safe production builds, through the test hook for the configuration path AND (a third of them) through the compiled-in path "
+                "(production branch of the ctor; fopen of that path redirected by libfaultlite); every call after the first finds errno as the previous failed exec left it; between calls the configuration file is rewritten with generated "
                 "contents covering every option of the registry (strings, booleans, syslog facility/level/ident, both length limits, every output with and without argument), "
                 "invalid values, duplicates, foreign sections, corrupted lines, binary garbage, emptied, removed, unreadable (injected fopen failure); every call compared (all sinks, "
                 "exec entry and after return) with the same call made first in a fresh process; liballoc: no live library-allocated block at exec entry/after return, "
